@@ -110,4 +110,19 @@ BENIGN = [
             return Err(DhError);
         }
         Ok(KexResult(res))""")]),
+    dict(name='b-nist-guard-self-size', props=['C09'],
+         edits=[(NIST, """                    // representation.
+                    enforce_equal_len(Self::OutputSize::to_usize(), encoded.len())?;""", """                    // representation.
+                    enforce_equal_len(Self::size(), encoded.len())?;""")]),
+    dict(name='b-nist-privkey-from-slice', props=['C09'],
+         edits=[(NIST, "let sk = curve_crate::SecretKey::from_bytes(encoded.into())", "let sk = curve_crate::SecretKey::from_slice(encoded)")]),
+    dict(name='b-enforce-equal-len-eq-form', props=['C09'],
+         edits=[(UTIL, """    if given_len != expected_len {
+        Err(HpkeError::IncorrectInputLength(expected_len, given_len))
+    } else {
+        Ok(())
+    }""", """    if expected_len == given_len {
+        return Ok(());
+    }
+    Err(HpkeError::IncorrectInputLength(expected_len, given_len))""")]),
 ]
